@@ -26,8 +26,8 @@ def float(x):  # noqa: A001 — overflow-safe: a huge exact rational becomes ±i
 
 
 ID = "C01"
-LEAN_TARGETS = ["Strengths.Props.C01", "Strengths.Props.C01Dxdtf", "Strengths.Props.C01Total", "Strengths.Props.C01Marshal"]
-PROP_FILES = ["Strengths/Props/C01.lean", "Strengths/Props/C01Dxdtf.lean", "Strengths/Props/C01Total.lean", "Strengths/Props/C01Marshal.lean"]
+LEAN_TARGETS = ["Strengths.Props.C01", "Strengths.Props.C01Dxdtf", "Strengths.Props.C01Total", "Strengths.Props.C01Marshal", "Strengths.Props.C01Units"]
+PROP_FILES = ["Strengths/Props/C01.lean", "Strengths/Props/C01Dxdtf.lean", "Strengths/Props/C01Total.lean", "Strengths/Props/C01Marshal.lean", "Strengths/Props/C01Units.lean"]
 GEN_GROUPS = ["Units", "IndexPy", "EngineCpp", "KineticsPy"]
 RULE = ("random reaction networks (1-3 species, 0-3 reactions, orders 0-4 per side incl. empty sides and repeated species, "
         "scalar / per-environment k, D, density with and without 'default', zeros) on grids (w,h,d with all mixes of "
@@ -503,6 +503,9 @@ def run_euler(ctx, jobs):
         Ue = L.sys_of(arr["us"])
         ops.append({"op": "marshal", "sys": jb["sysj"], "U": L.sysj(Ue)})
         meta.append(("marshal", jb, arr, case, None))
+        # the hypothesis of the any-units theorems (Props/C01Units.lean: DimWF / EdgesWF) holds of the system the package built
+        ops.append({"op": "pysys_dimwf", "sys": jb["sysj"]})
+        meta.append(("pysys_dimwf", jb, arr, case, None))
         eng = engine_io.eng_json(arr, edge=None)
         fqe = L.si_factor(Ue, L.D_QTY)
         x0e = [float(Fraction(v) * fq / fqe) for v in ss[0][1]]
@@ -528,6 +531,10 @@ def run_euler(ctx, jobs):
             ctx.count("marshal")
             if not okm:
                 ctx.disagree("marshal", case, {k: arr[k] for k in ("k", "sub", "sto", "D", "vol")}, mo)
+        elif kind == "pysys_dimwf":
+            ctx.count("pysys_dimwf")
+            if m.get("ok") is not True:
+                ctx.disagree("pysys_dimwf", case, "system accepted by the package", m)
         elif kind == "marshal_dxdt":
             x0e, x1e, dt = extra
             md = [rparse(v) for v in m["ok"]]
@@ -635,6 +642,8 @@ def run(ctx):
         for jb in pj:
             jb["sysj"] = L.sys_json(jb["system"], edges_si=jb["phys"]["edge"])
         run_euler(ctx, pj)
+    ctx.notes.append("any engine units system: Props/C01Units.lean (marshal_euler_general_units_graph/_grid, kinetics_marshal_euler_agree_*_units) "
+                     "under DimWF / EdgesWF; op pysys_dimwf evaluates that hypothesis on every system the package built")
     ctx.notes.append("partial theorems: see Props/C01.lean header (grid statements carry the geometry hypotheses PyGridOK / EngGridOK)")
 
 
